@@ -659,9 +659,10 @@ fn bool_at<const NI: usize, const NB: usize>(i: &BoolInstruction) -> bool {
 pub fn bool_case(k: usize) {
     // declaration order: Pop Push Dup Swap IsEmpty StackDepth Flush Print Println Not Or And Xor Implies FromInt
     let i = if k == 1 { BoolInstruction::push(true) } else { bool_variant(k) };
+    let z = bool_at::<0, 0>(&i);
     let a = bool_at::<0, 1>(&i);
     let b = bool_at::<1, 3>(&i);
-    cover!(a || b, "the instruction can be performed");
+    cover!(z || a || b, "the instruction can be performed");
 }
 macro_rules! bool_harness {
     ($name:ident, $pname:ident, $k:expr) => {
@@ -819,9 +820,10 @@ fn float_at<const NI: usize, const NF: usize, const NB: usize>(i: &FloatInstruct
 }
 
 pub fn float_case(i: FloatInstruction) {
+    let z = float_at::<0, 0, 0>(&i);
     let a = float_at::<0, 1, 0>(&i);
     let b = float_at::<1, 3, 1>(&i);
-    cover!(a || b, "the instruction can be performed");
+    cover!(z || a || b, "the instruction can be performed");
 }
 
 macro_rules! float_harness {
@@ -957,4 +959,96 @@ pub const HARNESSES: &[(&str, fn())] = &[
     ("c01_float_add", c01_float_add),
     ("c01_float_subtract", c01_float_subtract),
     ("c01_float_divide", c01_float_divide),
+    ("c01_block", c01_block),
 ];
+
+// ---------------------------------------------------------------------------------------------- block unfolding
+/// `impl<S, I> Instruction<S> for Vec<I>` (a block unfolds onto the exec stack) is generic: it is exercised here with
+/// a tiny instruction type and a one-stack state (a `PushProgram`-carrying state is out of CBMC's reach)
+#[derive(Clone, Copy, PartialEq, Debug)]
+pub struct Tiny(pub u8);
+#[derive(Clone)]
+pub struct BState {
+    pub exec: Stack<Tiny>,
+}
+impl HasStack<Tiny> for BState {
+    fn stack<U: TypeEq<This = Tiny>>(&self) -> &Stack<Tiny> {
+        &self.exec
+    }
+    fn stack_mut<U: TypeEq<This = Tiny>>(&mut self) -> &mut Stack<Tiny> {
+        &mut self.exec
+    }
+}
+impl Instruction<BState> for Tiny {
+    type Error = PushInstructionError;
+    fn perform(&self, state: BState) -> InstructionResult<BState, PushInstructionError> {
+        Ok(state)
+    }
+}
+
+fn block_at<const N0: usize, const K: usize>() -> bool {
+    let mut exec: Stack<Tiny> = Stack::default();
+    let mut pre = [Tiny(0); 4];
+    let mut i = 0;
+    while i < N0 {
+        pre[i] = Tiny(any_u8());
+        let _ = exec.push(pre[i]);
+        i += 1;
+    }
+    // maximum anywhere from "already full" to "everything fits"
+    let cap = N0 + any_upto(K);
+    exec.set_max_stack_size(cap);
+    let mut block = Vec::new();
+    let mut items = [Tiny(0); 4];
+    let mut i = 0;
+    while i < K {
+        items[i] = Tiny(any_u8());
+        block.push(items[i]);
+        i += 1;
+    }
+    let r = block.perform(BState { exec });
+    match r {
+        Ok(s) => {
+            check!(N0 + K <= cap, "[C03] a block that does not fit the exec stack aborts with an overflow");
+            // first element of the block on top
+            let mut want = [Tiny(0); 8];
+            let mut n = 0;
+            let mut i = 0;
+            while i < N0 {
+                want[n] = pre[i];
+                n += 1;
+                i += 1;
+            }
+            let mut i = K;
+            while i > 0 {
+                i -= 1;
+                want[n] = items[i];
+                n += 1;
+            }
+            check!(stack_matches(&s.exec, &want[..n]), "[C01] a block unfolds onto the exec stack in order (first element of the block on top)");
+            true
+        }
+        Err(e) => {
+            check!(N0 + K > cap, "[C01] a block that fits the exec stack is unfolded");
+            check!(e.is_fatal() && matches!(e.error(), PushInstructionError::StackError(StackError::Overflow { .. })), "[C03] a block that does not fit aborts with StackError::Overflow");
+            check!(stack_matches(&e.state().exec, &pre[..N0]), "[C02] the state handed back with an error is identical to the state before the instruction");
+            check!(e.state().exec.max_stack_size() == cap, "[C02] the limits are untouched");
+            false
+        }
+    }
+}
+pub fn c01_block() {
+    let a = block_at::<0, 2>();
+    let b = block_at::<1, 2>();
+    let c = block_at::<2, 1>();
+    let d = block_at::<1, 0>();
+    cover!(a || b || c, "a block can be unfolded");
+    cover!(!a || !b || !c, "a block can overflow");
+    cover!(d, "the empty block is a no-op");
+}
+#[cfg(kani)]
+#[kani::proof]
+#[kani::unwind(10)]
+fn p_c01_block() {
+    c01_block()
+}
